@@ -35,6 +35,8 @@ type Case struct {
 	Format    string            `json:"format"`
 	Indent    string            `json:"indent"`
 	Delimiter string            `json:"delimiter"`
+	// NoName: the plan has no name (e.g. `migrate diff` without the optional name argument).
+	NoName bool `json:"no_name,omitempty"`
 }
 
 type dialectT struct {
@@ -257,6 +259,9 @@ func evalWith(c Case, via string) (problems []string, skipped string, cmds []str
 		return nil, "plan: " + err.Error(), nil
 	}
 	plan.Version, plan.Name, plan.Delimiter = "1", "p", c.Delimiter
+	if c.NoName {
+		plan.Name = ""
+	}
 	for _, ch := range plan.Changes {
 		cmds = append(cmds, ch.Cmd)
 		if ch.Comment != "" {
@@ -422,7 +427,7 @@ func cases(tier string) []Case {
 							continue
 						}
 						for _, dl := range delims {
-							cs = append(cs, Case{dn, ch.vals, kind, f.name, ind, dl})
+							cs = append(cs, Case{Dialect: dn, Values: ch.vals, Kind: kind, Format: f.name, Indent: ind, Delimiter: dl})
 						}
 					}
 				}
@@ -447,7 +452,7 @@ func ownQuote(c Case) bool {
 }
 
 func Run(r *report.Run) {
-	r.Rule = "plans of the real MySQL/PostgreSQL/SQLite planners over a two-table schema in which one slot (thorough: two slots; plus, not embedded, a literal ending in a backslash) out of 11 (table/column/index/check/foreign-key name, table/column/index comment, string default, enum value, check string literal) holds each of 20 adversarial strings (quotes, semicolon, comment markers, backslash, newline, dollar tags, BEGIN/END, DELIMITER and atlas:delimiter lines) x change kind {create, drop, alter, alter back; for the enum value slot also: a value added right after / before the adversarial one} x 6 formatters (the atlas one also through Planner.WriteCheckpoint) x indent {none, two spaces} x plan delimiter (atlas format: default, \\nGO, //, \\n-- end; without indent and with one adversarial slot also: two backslashes, backslash G, //\"//); the file is read back with the matching reader and the dialect's scanner and must yield exactly Plan.Changes[].Cmd; every change comment carries a marker that must not reach a statement; import slice: the directory written by each third-party formatter is imported by the real `atlas migrate import` and the resulting atlas file, read with the dialect's scanner, must again yield exactly the planned statements; execution slice: for every dialect x format x change kind the formatted files are written into a local directory opened as the format's own directory type (over older, longer files of the same names) and the real Executor (empty history, statements recorded by the driver) must run exactly the planned statements; hand-written third-party files (3 statements x 4 terminator spellings incl. trailing blanks / tab / CR LF x 3 file endings incl. an unterminated last statement x 5 formats) must be read as exactly their 3 statements by the format's reader and by `migrate import`; non-trivial = case with >=1 adversarial slot; distinct = (dialect, slots, kind, format, indent, delimiter)"
+	r.Rule = "plans of the real MySQL/PostgreSQL/SQLite planners over a two-table schema in which one slot (thorough: two slots; plus, not embedded, a literal ending in a backslash) out of 11 (table/column/index/check/foreign-key name, table/column/index comment, string default, enum value, check string literal) holds each of 20 adversarial strings (quotes, semicolon, comment markers, backslash, newline, dollar tags, BEGIN/END, DELIMITER and atlas:delimiter lines) x change kind {create, drop, alter, alter back; for the enum value slot also: a value added right after / before the adversarial one} x 6 formatters (the atlas one also through Planner.WriteCheckpoint) x indent {none, two spaces} x plan delimiter (atlas format: default, \\nGO, //, \\n-- end; without indent and with one adversarial slot also: two backslashes, backslash G, //\"//); the file is read back with the matching reader and the dialect's scanner and must yield exactly Plan.Changes[].Cmd; every change comment carries a marker that must not reach a statement; import slice: the directory written by each third-party formatter is imported by the real `atlas migrate import` and the resulting atlas file, read with the dialect's scanner, must again yield exactly the planned statements; execution slice: for every dialect x format x change kind x {named, unnamed plan} the formatted files are written into a local directory opened as the format's own directory type (over older, longer files of the same names) and the real Executor (empty history, statements recorded by the driver) must run exactly the planned statements; hand-written third-party files (3 statements x 4 terminator spellings incl. trailing blanks / tab / CR LF x 3 file endings incl. an unterminated last statement x 5 formats) must be read as exactly their 3 statements by the format's reader and by `migrate import`; non-trivial = case with >=1 adversarial slot; distinct = (dialect, slots, kind, format, indent, delimiter)"
 	r.Assumptions = []string{
 		"statement text is compared after trimming one trailing ';'",
 		"the import slice uses create plans with at most one adversarial slot (quick: 4 slots; thorough: all)",
@@ -588,6 +593,7 @@ func execCases() []Case {
 		for _, f := range formats {
 			for _, k := range []string{"create", "drop", "alter", "alter_back"} {
 				cs = append(cs, Case{Dialect: d, Kind: k, Format: f.name})
+				cs = append(cs, Case{Dialect: d, Kind: k, Format: f.name, NoName: true})
 			}
 		}
 	}
@@ -617,7 +623,7 @@ func importCases(tier string) []Case {
 				if strings.HasPrefix(f.name, "atlas") {
 					continue
 				}
-				cs = append(cs, Case{dn, v, "create", f.name, "", ""})
+				cs = append(cs, Case{Dialect: dn, Values: v, Kind: "create", Format: f.name})
 			}
 		}
 	}
